@@ -22,7 +22,16 @@ RULE = ("ops: mk (constructor, ints around 0 / 2^11 / 2^29 / 2^31 / 2^32 incl. n
         "arguments are modified before and after it (setters, plain assignment): identifiers handed out by the factories must be independent objects. "
         "The frames of 'resolve' / 'jdec' matrices get their identifiers through these paths too; between building the matrix and decoding, the "
         "process works on identifiers of its own (obtained for the received PGN / identifier or a frame's, then re-targeted), looks frames up by PGN, "
-        "and a frame is re-targeted to the received PGN (found there) and back.")
+        "and a frame is re-targeted to the received PGN (found there) and back. "
+        "PDU format sweep: for every PDU format byte 0..255 (data page bits random) a 'jdec' and a 'resolve' matrix holds a frame of that PGN and "
+        "an identifier of that PGN with another priority / source (/ destination) is received - also the PGNs the protocol itself uses (TP.CM 0xEC00, "
+        "TP.DT 0xEB00, address claimed 0xEE00, request 0xEA00, acknowledgement 0xE800, ETP, DM1 ...), which user data bases list as ordinary frames. "
+        "'jdec' frames and received identifiers are drawn from the whole PGN range, PDU1 frames are defined with a destination as well; the payload "
+        "starts with the control bytes of the transport protocol (32 BAM, 16 RTS, 17 CTS, 19 ACK, 255 abort) as well; the decoder object of a 'jdec' case "
+        "has a history ('dec': BAM announcements, TP.DT packets, connection management, address claims, frames of the matrix, the received identifier "
+        "itself, with and without the matrix) before it decodes the received identifier. Kept out (unchanged code raises, outside C09): a received "
+        "TP.DT without a matrix frame of PGN 0xEB00 on a decoder that saw no BAM announcement (AttributeError bytes_left; an announcement is put "
+        "in front: jdec_guard), received PGNs only the bundled j1939.dbc knows with a length other than 8 or an empty signal (BUNDLED_LONG).")
 EXHAUSTIVE = {"quick": False, "thorough": False}
 PARTIAL = ["the payload decoding after frame resolution is C01's; here only which frame is chosen is compared"]
 ASSUMPTIONS = ["identifiers are Python ints, the extended flag a bool (the deprecated extended=None wildcard is outside the domain)"]
@@ -72,6 +81,10 @@ def gen(rng, tier, shard, nshards):
                 yield {"op": "fields", "c": [i, True]}
                 yield {"op": "tocompound", "c": [i, True]}
                 yield {"op": "compound", "c": [i | (1 << 31)]}
+                if fname == "pf":
+                    # a frame of this PDU format in the matrix, an identifier of the same PGN received: both decoders
+                    yield jdec_case(rng, pf=v)
+                    yield resolve_case(rng, sweep_pf=v)
             # setters swept
             base = rand_ext(rng)
             if fname == "prio":
@@ -237,43 +250,148 @@ def with_history(rng, case):
             # a frame is re-targeted to another PGN (mostly the received one), looked up there, and gets its own PGN back
             hist.append(["retarget", rng.randrange(len(frames)) if frames else 0, pgn_of(k[0]) if k[1] and rng.random() < 0.7 else rand_pgn(rng, pool)])
     c["hist"] = hist
-    return case
+    return jdec_guard(case) if case["op"] == "jdec" else case
 
 
 KNOWN_PGNS = [0xF004, 0xF002, 0xFE4A, 0xFEF1, 0x0100, 0xFEEE]      # PGNs the bundled j1939.dbc defines as well
 OWN_PGNS = [0xFF04, 0xFF21, 0x1200, 0xEF00]                          # proprietary ones
 
 
-def jdec_case(rng):
+# PGNs the protocol itself uses; user data bases list them as ordinary frames: TP.CM, TP.DT, address claimed, request, acknowledgement,
+# ETP.CM, ETP.DT, request2, transfer, DM1, commanded address, proprietary A2
+PROTO_PGNS = [0xEC00, 0xEB00, 0xEE00, 0xEA00, 0xE800, 0xC800, 0xC700, 0xC900, 0xCA00, 0xFECA, 0xFED8, 0x1EF00]
+# PGNs the bundled j1939.dbc defines with a length other than 8 bytes (multi packet) or with an empty signal (ETH): decoding an 8 byte payload
+# with them raises in the unchanged code - payload decoding, not C09's; not received unless the matrix has a frame of its own for them
+BUNDLED_LONG = {0xFD78, 0xFD79, 0xFD98, 0xFD99, 0xFDBC, 0xFEB0, 0xFEB4, 0xFEB7, 0xFEB8, 0xFEB9, 0xFEBA, 0xFEBB, 0xFEBC, 0xFEE1, 0xFEE3, 0xFE90}
+TP_CONTROL = [32, 16, 17, 19, 255]
+
+
+def rand_jpgn(rng, pf=None):
+    """a PGN as a data base defines it (PDU1: low byte 0), from the whole range"""
+    c = rng.random()
+    if pf is not None:
+        p = pf << 8
+    elif c < 0.35:
+        p = rng.choice(KNOWN_PGNS + OWN_PGNS)
+    elif c < 0.65:
+        p = rng.choice(PROTO_PGNS)
+    else:
+        p = rng.choice([0, 1, 0xC7, 0xE8, 0xEA, 0xEB, 0xEC, 0xED, 0xEE, 0xEF, 0xF0, 0xFE, 0xFF, rng.randrange(256), rng.randrange(256)]) << 8
+    if pf is not None or c >= 0.65:
+        if (p >> 8) & 0xFF >= 240:
+            p |= rng.choice([0, 1, 0x21, 0xCA, 255, rng.randrange(256)])
+        if rng.random() < (0.5 if pf is not None else 0.2):
+            p |= rng.choice([1, 1, 2, 3]) << 16          # data page / extended data page
+    return p
+
+
+def rand_payload(rng):
+    c = rng.random()
+    if c < 0.4:
+        return [1, 2, 3, 4, 5, 6, 7, 8]
+    if c < 0.8:
+        # the control bytes of the transport protocol in front: length 9, two packets, PGN 0xFECA
+        return [rng.choice(TP_CONTROL), 9, 0, rng.choice([0, 1, 2]), 0xFF, 0xCA, 0xFE, 0]
+    return [rng.randrange(256) for _ in range(8)]
+
+
+def rand_dec_history(rng, frames, k):
+    """what the decoder object decoded before: [identifier, payload, with the matrix?]"""
+    out = []
+    ext = [f[1] for f in frames if f[2]]
+    sa = rng.choice([k[0] & 0xFF, rng.randrange(256)])
+    for _ in range(rng.choice([1, 1, 2, 3, 5])):
+        h = rng.random()
+        if h < 0.2:
+            n = rng.choice([0, 1, 2, 3])
+            tp = rng.choice([pgn_of(rng.choice(ext)) if ext else 0xFECA, pgn_of(k[0]), 0xFECA, rng.randrange(1 << 18)])
+            out.append([0x1CECFF00 | sa, [32, (7 * n + 2) & 255, 0, n, 255, tp & 255, (tp >> 8) & 255, tp >> 16], rng.random() < 0.8])
+        elif h < 0.4:
+            out.append([0x1CEBFF00 | sa, [rng.randrange(1, 5)] + [rng.randrange(256) for _ in range(7)], rng.random() < 0.9])
+        elif h < 0.5:
+            i = rng.choice([0x18EC0000 | (rng.randrange(256) << 8) | sa, 0x18EEFF00 | sa, 0x18EAFF00 | sa])
+            out.append([i, [rng.choice(TP_CONTROL[1:]), 9, 0, 2, 1, 0xCA, 0xFE, 0], rng.random() < 0.8])
+        elif h < 0.7 and ext:
+            i = rng.choice(ext)
+            out.append([(i & ~0x1C0000FF & M29) | (rng.randrange(8) << 26) | rng.randrange(256), rand_payload(rng), rng.random() < 0.9])
+        elif h < 0.85:
+            out.append([k[0], rand_payload(rng), rng.random() < 0.8])
+        else:
+            out.append([rng.choice([rand_ext(rng), (rng.choice(KNOWN_PGNS) << 8) | rng.randrange(256)]), [1, 2, 3, 4, 5, 6, 7, 8], rng.random() < 0.8])
+    return out
+
+
+def jdec_guard(case):
+    """inputs on which the unchanged code raises for reasons outside C09 are kept out (see RULE): a bundled multi packet PGN nobody in the
+    matrix carries is replaced by one nobody knows; a received TP.DT nobody in the matrix carries gets a BAM announcement in front"""
+    c = case["c"]
+    k = c["k"]
+
+    def carried():
+        return any(f[2] and pgn_of(f[1]) == pgn_of(k[0]) for f in c["frames"])
+    dec = [h for h in c.get("dec") or [] if len(h) < 4]
+    if not carried() and pgn_of(k[0]) in BUNDLED_LONG:
+        k = c["k"] = [(k[0] & ~0x3FFFF00) | (0x1300 << 8), True]
+    if not carried() and pgn_of(k[0]) == 0xEB00:
+        dec.append([0x1CECFF00 | (k[0] & 0xFF), [32, 21, 0, 3, 255, 0xFE, 0xFF, 0x03], False, "announcement"])
+    if dec or "dec" in c:
+        c["dec"] = dec
+    return case
+
+
+def jdec_case(rng, pf=None):
     """canmatrix.j1939_decoder.decode(id, payload, matrix): the matrix's own frame of that PGN comes first"""
     frames = []
     used = set()
-    for k in range(rng.randint(1, 4)):
-        if rng.random() < 0.25:
+    want = rand_jpgn(rng, pf) if pf is not None else None
+    nfr = rng.randint(1, 4)
+    at = rng.randrange(nfr)
+    for k in range(nfr):
+        if rng.random() < 0.25 and not (want is not None and k == at):
             i, ext = rng.randrange(1 << 11), False
         else:
-            p = rng.choice(KNOWN_PGNS + OWN_PGNS)
-            i, ext = (rng.randrange(8) << 26) | (p << 8) | rng.choice([0, 1, 254]), True
+            p = want if want is not None and k == at else rand_jpgn(rng)
+            i, ext = (rng.randrange(8) << 26) | (p << 8) | rng.choice([0, 1, 5, 254]), True
+            if (p >> 8) & 0xFF < 240 and rng.random() < 0.5:
+                i |= rng.choice([0xFF, 0xFF, 0x21, rng.randrange(256)]) << 8      # PDU1 frames are defined with a destination, often the global one
         if (i, ext) in used:
             continue
         used.add((i, ext))
         frames.append(["f%d" % k, i, ext, ext])
-    p = rng.choice(KNOWN_PGNS + OWN_PGNS + [0x1300])
+    own = [pgn_of(f[1]) for f in frames if f[2]]
+    c = rng.random()
+    if want is not None and rng.random() < 0.8:
+        p = pgn_of(want << 8)
+    elif own and c < 0.6:
+        p = rng.choice(own)
+    elif c < 0.8:
+        p = rng.choice(KNOWN_PGNS + OWN_PGNS + [0x1300])
+    else:
+        p = pgn_of(rand_jpgn(rng) << 8)
     kid = (rng.randrange(8) << 26) | (p << 8) | rng.randrange(256)
-    if p < 0xF000 and rng.random() < 0.5:
+    if (p >> 8) & 0xFF < 240 and rng.random() < 0.5:
         kid |= rng.randrange(256) << 8          # PDU1: a destination address
-    return {"op": "jdec", "c": {"frames": frames, "k": [kid, True]}}
+    cc = {"frames": frames, "k": [kid, True]}
+    if rng.random() < 0.6:
+        cc["data"] = rand_payload(rng)
+    if rng.random() < 0.5:
+        cc["dec"] = rand_dec_history(rng, frames, cc["k"])
+    return jdec_guard({"op": "jdec", "c": cc})
 
 
-def resolve_case(rng):
+def resolve_case(rng, sweep_pf=None):
     frames = []
-    pgns = [(rng.randint(0, 1), rng.randint(0, 1), rng.choice([0, 100, 239, 240, 241, 254, 255]), rng.choice([0, 1, 33, 255])) for _ in range(rng.randint(1, 4))]
+    pgns = [(rng.randint(0, 1), rng.randint(0, 1), rng.choice([0, 100, 239, 240, 241, 254, 255, 0xEA, 0xEB, 0xEC, 0xEE, rng.randrange(256)]),
+             rng.choice([0, 1, 33, 255])) for _ in range(rng.randint(1, 4))]
+    if sweep_pf is not None:
+        # PDU format sweep: this PDU format is among the PGNs of the matrix (mostly without the page bits, as the protocol's own PGNs are)
+        pgns[0] = (0 if rng.random() < 0.7 else rng.randint(0, 1), rng.randint(0, 1) if rng.random() < 0.4 else 0, sweep_pf, rng.choice([0, 1, 33, 255]))
     used = set()
     for k in range(rng.randint(1, 7)):
         if rng.random() < 0.3:
             i, ext, j = rng.randrange(1 << 11), False, False
         else:
-            edp, dp, pf, ps = rng.choice(pgns)
+            edp, dp, pf, ps = pgns[0] if sweep_pf is not None and not any(e for _, e in used) else rng.choice(pgns)
             i = compose(rng.randrange(8), edp, dp, pf, ps if pf >= 240 or rng.random() < 0.7 else rng.randrange(256), rng.choice([0, 1, 2, 254]))
             ext, j = True, rng.random() < 0.85
         if (i, ext) in used:
@@ -288,8 +406,8 @@ def resolve_case(rng):
     if std and rng.random() < 0.15:
         # a received 29-bit identifier with the number of an 11-bit frame of the matrix is another identifier
         k = [rng.choice(std)[1], True]
-    elif c < 0.55:
-        edp, dp, pf, ps = rng.choice(pgns)
+    elif c < 0.55 or sweep_pf is not None:
+        edp, dp, pf, ps = rng.choice(pgns) if sweep_pf is None or rng.random() < 0.2 else pgns[0]
         k = [compose(rng.randrange(8), edp, dp, pf, ps if pf >= 240 else rng.randrange(256), rng.randrange(256)), True]
     elif c < 0.75:
         f = rng.choice(frames)
@@ -519,7 +637,15 @@ def observe(case):
                 db.add_frame(fr)
             run_history(db, c)
             dec = canmatrix.j1939_decoder.j1939_decoder()
-            text, values = dec.decode(cm.ArbitrationId(c["k"][0], c["k"][1]), bytes([1, 2, 3, 4, 5, 6, 7, 8]), db)
+            # the decoder object has a history of its own: what it decoded before (with the matrix or without one)
+            for h in c.get("dec") or []:
+                try:
+                    dec.decode(cm.ArbitrationId(h[0], True), bytes(h[1]), db if h[2] else None)
+                except Exception:  # noqa
+                    pass
+            res = dec.decode(cm.ArbitrationId(c["k"][0], c["k"][1]), bytes(c.get("data") or [1, 2, 3, 4, 5, 6, 7, 8]), db)
+            # the connection management branches of the transport protocol answer with a bare text
+            text, values = res if isinstance(res, tuple) else (res, {})
             kind = "regular" if text.startswith("regular ") else "known" if text.startswith("J1939 known: ") else "other"
             return {"kind": kind, "name": text[8:] if kind == "regular" else None, "signals": sorted(values.keys()) if kind == "regular" else None}
         if op == "resolve":
@@ -590,6 +716,19 @@ def features(case, impl):
         for f in c["frames"]:
             if len(f) > 4 and f[4]:
                 yield "frame id via=" + f[4]["path"]
+    if case["op"] in ("jdec", "resolve"):
+        k = c["k"]
+        if k[1]:
+            p = pgn_of(k[0])
+            carried = any(f[2] and pgn_of(f[1]) == p for f in c["frames"])
+            yield case["op"] + ": received PGN " + ("carried by a frame" if carried else "not carried")
+            if p in PROTO_PGNS:
+                yield case["op"] + ": received PGN is one the protocol uses (0x%05X), %s" % (p, "carried" if carried else "not carried")
+        if case["op"] == "jdec":
+            yield "jdec: decoder history=%d" % len(c.get("dec") or [])
+            yield "jdec: payload starts with " + ("a TP control byte" if (c.get("data") or [1])[0] in TP_CONTROL else "another byte")
+            if isinstance(impl, dict) and impl.get("kind"):
+                yield "jdec->" + impl["kind"]
     if case["op"] == "fields" and case["c"][1]:
         yield "pdu%d" % (1 if ((case["c"][0] >> 16) & 0xFF) < 240 else 2)
 
@@ -599,6 +738,14 @@ def nontrivial(case, impl):
     return case["op"] in ("resolve", "jdec") or c[0] != 0
 
 
+def keep_out(case):
+    """smaller candidates stay inside the generated domain"""
+    if case["op"] == "jdec":
+        case = {"op": "jdec", "c": dict(case["c"], k=list(case["c"]["k"]), dec=[list(h) for h in case["c"].get("dec") or []])}
+        return jdec_guard(case)
+    return case
+
+
 def _smaller(case):
     if case["op"] in ("resolve", "jdec"):
         c = case["c"]
@@ -606,9 +753,15 @@ def _smaller(case):
         hist = c.get("hist") or []
         for i in range(len(fr)):
             if len(fr) > 1 and not any(h[0] == "retarget" for h in hist):
-                yield {"op": case["op"], "c": dict(c, frames=fr[:i] + fr[i + 1:])}
+                yield keep_out({"op": case["op"], "c": dict(c, frames=fr[:i] + fr[i + 1:])})
         for i in range(len(hist)):
-            yield {"op": case["op"], "c": dict(c, hist=hist[:i] + hist[i + 1:])}
+            yield keep_out({"op": case["op"], "c": dict(c, hist=hist[:i] + hist[i + 1:])})
+        dech = c.get("dec") or []
+        for i in range(len(dech)):
+            if len(dech[i]) < 4:
+                yield keep_out({"op": case["op"], "c": dict(c, dec=dech[:i] + dech[i + 1:])})
+        if c.get("data"):
+            yield keep_out({"op": case["op"], "c": {kk: vv for kk, vv in c.items() if kk != "data"}})
         for i, f in enumerate(fr):
             if len(f) > 4 and f[4]:
                 yield {"op": case["op"], "c": dict(c, frames=fr[:i] + [list(f[:4]) + [None]] + fr[i + 1:])}
@@ -631,7 +784,7 @@ def _with_a_history(case):
     op, c = case["op"], case["c"]
     if op in ("resolve", "jdec"):
         for _ in range(6):
-            yield with_history(rng, {"op": op, "c": {"frames": [list(f) for f in c["frames"]], "k": list(c["k"])}})
+            yield with_history(rng, {"op": op, "c": dict(c, frames=[list(f) for f in c["frames"]], k=list(c["k"]))})
     elif op in PLAIN_LEN and len(c) == PLAIN_LEN[op]:
         own = {"frompgn": "frompgn", "compound": "fromcompound", "mk": "ctor"}.get(op)
         ext = True if op == "frompgn" else bool(c[1]) if op != "compound" else False
